@@ -6,5 +6,5 @@ func init() {
 			"deadlines are moved only on entries known unexpired on that path (C03.deadline), every table-sourced node passes an expiry test before it reaches an API-visible sink - return values, iterator yields, the 'old value' handed to calculators and loaders, the policy access hook (C03.filter), and the persistence loader skips entries with deadline <= now, the same boundary as every node variant's HasExpired (C03.persist). "+
 			"NOT decided: interleavings in which the clock moves during an operation.",
 		[]string{"HasExpired(x, now) is stable between two evaluations on one path", "hashmap.Map.Compute runs its callback exactly once under the bucket lock (C15.once / C15.rmw)", "configuration flags are immutable after construction (C01.cap)"},
-		ruleC03Ret, ruleC03Deadline, ruleC03Filter, ruleLoadLemma, ruleC03Source, ruleC19Load, ruleC19Save, ruleC12Bound, ruleC06HandlerNil)
+		ruleC03Ret, ruleC03Deadline, ruleC03Filter, ruleLoadLemma, ruleC03Source, ruleC19Load, ruleC19Save, ruleC12Bound, ruleC06HandlerNil, ruleC12Hooks)
 }
